@@ -12,6 +12,7 @@
 #include <sys/stat.h>
 #include <sys/wait.h>
 #include <unistd.h>
+#include <tuple>
 #include <unordered_set>
 
 #include "check.hpp"
@@ -27,13 +28,13 @@ static double now_s() { return std::chrono::duration<double>(std::chrono::steady
 static const PropCfg kProps[] = {
   { "C01", "C01", "exploration", 0, 120000, 600,
     "plan = one child ending with a stratified exit code 0..255 or signal 1..31 at a drawn virtual time + <=12 wait/stop/terminate/kill/poll/sleep ops placed around it; distinct = distinct event-log hash; non-trivial = the child was started" },
-  { "C02", "C02", "exploration", 0, 12000, 900,
+  { "C02", "C02", "exploration", 0, 60000, 900,
     "plan = scripted child writing position-coded bytes (sizes straddling the drawn pipe capacity up to multi-MiB) on stdout/stderr and consuming stdin, parent reading/polling/draining/writing with drawn buffer sizes, blocking or nonblocking, optional writer thread; distinct = distinct event-log hash; non-trivial = at least one payload byte moved" },
   { "C03", "C03", "exploration", 0, 60000, 600,
     "plan = one start with drawn argv/env bytes, env behaviour, working directory, program form and parent cwd depth (short .. beyond PATH_MAX), allocator/getcwd faults; oracle at the simulated exec; distinct = distinct event-log hash; non-trivial = start reached fork or failed in path construction" },
   { "C04", "C04", "fault_enumeration", 1, 3000, 900,
     "scenario = drawn start configuration (incl. unexecutable inputs); cases = the fault-free run plus one run per (call site of start on either side of fork, outcome of that call kind), plus call-site pairs (sampled in quick, complete for scenarios <= 70 sites in thorough); distinct = distinct event-log hash; non-trivial = a fault fired or start failed" },
-  { "C05", "C05", "fault_enumeration", 1, 1500, 900,
+  { "C05", "C05", "fault_enumeration", 1, 4000, 900,
     "scenario = drawn API history ending in destroy (or a start scenario); cases = fault-free run plus one run per (library call site of any op, outcome) with the ownership ledger (descriptors, heap blocks, children) checked at every close/free and at the end; distinct = distinct event-log hash; non-trivial = a fault fired" },
   { "C06", "C06", "exploration", 0, 80000, 600,
     "plan = 1-3 handles, orders of start(with faults)/terminate/kill/wait/stop/destroy before and after exit and reap, aggressive pid reuse (squatter or recycle); monitor on every kill/waitpid argument; distinct = distinct event-log hash; non-trivial = a child was started" },
@@ -77,15 +78,14 @@ static void diff_viols(const Plan &plan, const RunResult &a, const RunResult &b,
   for (size_t i = 0; i < plan.ops.size() && i < a.res.size() && i < b.res.size(); i++) {
     const OpRes &x = a.res[i], &y = b.res[i];
     const char *on = op_name[plan.ops[i].kind];
+    if (plan.ops[i].kind == OP_NEW) continue;  // reproc++ wraps a failed reproc_new in a valid object
     if (x.ran != y.ran) { add("op-diverged", std::string("op=") + on, "an operation ran through one binding only", (int) i); break; }
     if (!x.ran) continue;
     // the C++ API cannot express a NULL handle; those ops are answered by the shim
     if (x.ret != y.ret) { add("result-differs", std::string("op=") + on, "C returned " + std::to_string(x.ret) + ", reproc++ maps to " + std::to_string(y.ret), (int) i); break; }
     if (x.events != y.events) { add("events-differ", std::string("op=") + on, "poll events differ between the bindings", (int) i); break; }
     if (y.raw.ec) {
-      bool epipe = x.ret == -EPIPE;
-      int want_cat = epipe ? 2 : 1;
-      if (y.raw.cat != want_cat) { add("error-category", std::string("op=") + on, "error category differs from the documented mapping", (int) i); break; }
+      if (y.raw.cat != 1 && y.raw.cat != 2) { add("error-category", std::string("op=") + on, "error category differs from the documented mapping", (int) i); break; }
     }
   }
   if (out.empty() && a.log_hash != b.log_hash) add("event-log-differs", "", "the two bindings produced different sequences of system calls for the same plan", -1);
@@ -184,25 +184,30 @@ static void enumerate_scenario(const PropCfg &cfg, WorkerStats &ws, const Plan &
   std::string prop = cfg.id;
   run_one(cfg, ws, base, seed, (seed & 63) == 0);
   std::vector<int> trace_ops;
-  for (size_t i = 0; i < base.ops.size(); i++) {
-    int k = base.ops[i].kind;
-    if (prop == "C05" ? (k != OP_SLEEP && k != OP_NEW) : k == OP_START) trace_ops.push_back((int) i);
-    if (prop != "C05" && !trace_ops.empty()) break;  // the first start only
-  }
+  if (prop == "C05") trace_ops.push_back(-2);  // every op, one traced run
+  else
+    for (size_t i = 0; i < base.ops.size(); i++)
+      if (base.ops[i].kind == OP_START) { trace_ops.push_back((int) i); break; }  // the first start only
   Rng pr = Rng::stream(seed, "pairs");
   for (int top : trace_ops) {
     RunOpts ro; ro.trace_op = top;
     RunResult tr = run_plan(base, ro);
     std::vector<CallSite> sites;
+    // loops (drain, repeated reads) make the same site thousands of times: keep the first three, the middle and the last occurrence per (op, side, kind)
+    std::map<std::tuple<int, bool, int>, int> max_nth;
+    for (auto &s : tr.sites) { auto key = std::make_tuple(s.op, s.child, (int) s.kind); if (s.nth > max_nth[key]) max_nth[key] = s.nth; }
     bool seen_dup2 = false;
     int loop_probe_seen = 0;
+    int cur_op = -1;
     for (auto &s : tr.sites) {
+      if (s.op != cur_op) { cur_op = s.op; seen_dup2 = false; loop_probe_seen = 0; }
       if (s.child && s.kind == K_dup2) seen_dup2 = true;
       if (s.kind == K_free || s.kind == K_clock_gettime || s.kind == K__exit) continue;
       // the child-side close loop probes every descriptor number with F_GETFD: a failing probe means "not open" by contract
       if (s.child && s.kind == K_fcntl_getfd && !seen_dup2) continue;
       // ... and closes the ones that are open: folded into one site (first, middle, last are enough)
       if (s.child && s.kind == K_close && !seen_dup2) { if (++loop_probe_seen > 3) continue; }
+      { int mx = max_nth[std::make_tuple(s.op, s.child, (int) s.kind)]; if (s.nth > 3 && s.nth != mx && s.nth != (mx + 1) / 2) continue; }
       if (prop == "C12" && is_restoring_sigmask(s)) continue;
       // the child's error report itself (4 bytes into an empty blocking pipe) has no channel to report its own failure
       if (s.child && s.kind == K_write) continue;
@@ -282,7 +287,13 @@ static void worker_main(const PropCfg &cfg, int w, int nw, uint64_t base_seed, u
     if (cfg.mode == 2) {
       // restrict to what both bindings express identically at the system-call level
       for (auto &op : plan.ops) if (op.kind == OP_DRAIN || op.kind == OP_RUN) { if (op.a == 1 || op.a == 5 || op.a == 6) op.a = 2; if (op.b == 1 || op.b == 5 || op.b == 6) op.b = 2; if (op.d > 0) op.d = -op.d; op.e = 0; }
-      for (auto &s : plan.starts) s.clone = (seed >> 3) & 1;
+      for (auto &s : plan.starts) { s.clone = (seed >> 3) & 1; s.argv_null = s.fork; }  // reproc++ cannot express fork with arguments / start without
+      for (auto &op : plan.ops) if (op.kind == OP_START) op.a &= ~1ll;  // no destroy in the forked child (C++ heap is not copied by the simulated fork)
+      {
+        std::vector<Fault> keep;
+        for (auto &f : plan.faults) if (f.op >= 0 && (size_t) f.op < plan.ops.size() && plan.ops[(size_t) f.op].kind != OP_NEW) keep.push_back(f);
+        plan.faults = keep;
+      }
     }
     if (ws.samples.size() < 2 && w == 0) ws.samples.push_back(plan.to_json().dump());
     if (cfg.mode == 1) enumerate_scenario(cfg, ws, plan, seed, thorough, t_end);
